@@ -7,7 +7,7 @@ open Lean VP
 def dtNames : List (String × DT) :=
   [("bool", .bool), ("i8", .i8), ("i16", .i16), ("i32", .i32), ("i64", .i64), ("u8", .u8),
    ("u16", .u16), ("u32", .u32), ("u64", .u64), ("f16", .f16), ("f32", .f32), ("f64", .f64),
-   ("c64", .c64), ("c128", .c128), ("str", .str), ("object", .object), ("longlong", .longlong),
+   ("c64", .c64), ("c128", .c128), ("str", .str), ("object", .object), ("objmixed", .objmixed), ("longlong", .longlong),
    ("ulonglong", .ulonglong), ("other", .other)]
 
 def parseDT (s : String) : Except String DT :=
